@@ -449,9 +449,32 @@ SolveClauses1(c, S, A) ==
   ELSE IF c.outcome = "ok" THEN SolveClauses2(c, S, A, c.table, PhaseList(S, A)) \o SliceClauses(c, A)
   ELSE Tag(<< Cl("C03.ExcClass", TRUE, c.exc \in {"RuntimeError", "ValueError"}) >>, "", "")
 
+\* The system the caller configured (c.want: the state of the TLC construction behaviour the driver replayed through
+\* the public API) against the projected state the reports are computed from: the rails, the mux input order and the
+\* phase configurations in force must be the ones that were assigned.
+WantClauses(c, S) ==
+  IF ~c.haswant THEN <<>>
+  ELSE LET W     == c.want
+           WN    == {W[i].name : i \in DOMAIN W}
+           At(n) == W[CHOOSE i \in DOMAIN W : W[i].name = n]
+           same  == WN = Names(S)
+           ConfKeys(cf) == IF cf.t = "map" THEN {cf.v[i][1] : i \in DOMAIN cf.v}
+                           ELSE IF cf.t = "list" THEN SeqRange(cf.v) ELSE {}
+       IN Tag(<< Cl("C08.RailsAsAssigned", TRUE, same /\ \A n \in WN : S.comps[n].rail = At(n).rail),
+                 Cl("C05.InputsAsDeclared", TRUE, same /\ \A n \in WN : S.par[n] = At(n).par),
+                 Cl("C07.SourcesAsBuilt", TRUE, same /\ \A n \in WN : S.comps[n].cls = At(n).cls),
+                 Cl("C06.ConfAsConfigured", TRUE,
+                    same /\ \A n \in WN : S.pconf[n].t = At(n).ct /\ ConfKeys(S.pconf[n]) = SeqRange(At(n).ck)) >>, "", "")
+
+\* a construction (or solve - edit - solve) history that the specification accepts must be accepted by the library:
+\* otherwise the system the property quantifies over has no report at all
+BuildProps == <<"C01", "C02", "C04", "C05", "C06", "C07", "C08", "C09">>
+BuildClauses == Tag([i \in DOMAIN BuildProps |-> Cl(BuildProps[i] \o ".Build", TRUE, FALSE)], "", "")
+
 CaseClauses(c, S) ==
-  IF ~Modelled(S) THEN Tag(<< Cl("note.Unmodelled", TRUE, FALSE) >>, "", "")
-  ELSE SolveClauses1(c, S, c.args)
+  IF ~c.built THEN BuildClauses ELSE
+  IF ~Modelled(S) THEN Tag(<< Cl("note.Unmodelled", TRUE, FALSE) >>, "", "") \o WantClauses(c, S)
+  ELSE SolveClauses1(c, S, c.args) \o WantClauses(c, S)
 
 AllClauseNames ==
   {"C01.Link.Vin", "C01.SourceVin", "C01.Link.Iout", "C01.Law.Vout", "C01.Law.Iin",
@@ -469,7 +492,7 @@ AllClauseNames ==
    "C10.Value.Vout", "C10.Value.Iin", "C11.LossNonNeg", "C11.EffLe100", "C11.PassiveNoGain",
    "driver.DesignedOK", "C03.FindsModest", "C03.Residual.Vout", "C03.Residual.Iin",
    "C06.PhaseValue", "C06.SleepValue", "C06.ActiveList", "C06.NoConfig", "C06.SinglePhaseEqualsSlice",
-   "C06.UnknownPhase", "C08.NoException", "C08.NoRails", "C08.None", "C08.RailSet", "C08.Voltage", "C08.Sums", "C08.Warnings"}
+   "C06.UnknownPhase", "C01.Build", "C02.Build", "C04.Build", "C05.Build", "C06.Build", "C07.Build", "C08.Build", "C09.Build", "C08.RailsAsAssigned", "C05.InputsAsDeclared", "C07.SourcesAsBuilt", "C06.ConfAsConfigured", "C08.NoException", "C08.NoRails", "C08.None", "C08.RailSet", "C08.Voltage", "C08.Sums", "C08.Warnings"}
 
 Init == ci = 1 /\ verd = <<>> /\ stat = [c \in AllClauseNames |-> 0]
 
